@@ -217,7 +217,14 @@ int main(int argc, char **argv) {
     int n = 0, bad = 0; char *p;
     while ((p = strtok_r(NULL, " ", &save)) && n < 64) { if (parse_tok(p, &toks[n]) < 0) bad = 1; n++; }
     opfn_t fn = find_op(op);
-    if (bad) out_raw(&o, "?parse");
+    if (!bad && !strcmp(op, "@reset")) {          /* every stateful ops file may register its own "@reset" */
+      for (int i = 0; h_registry[i]; i++)
+        for (const opdef_t *d = h_registry[i]; d->name; d++)
+          if (!strcmp(d->name, "@reset")) d->fn(n, toks, &o);
+      o.len = 0; if (o.buf) o.buf[0] = 0; out_raw(&o, "ok");
+      h_alloc_errors = 0;
+    }
+    else if (bad) out_raw(&o, "?parse");
     else if (!fn) out_raw(&o, "?op");
     else {
       long live0 = h_live_blocks; h_alloc_errors = 0; h_exc_happened = 0;
